@@ -82,6 +82,44 @@ def shrink_expr(expr, fails):
     return expr
 
 
+def template_level(report, rng, driver, n):
+    """the same functions reached through a whole template: values of declared parameters (defaults, empty text, supplied
+    values) arrive through the template's own binding before Ref / Fn::Sub / Fn::Join see them"""
+    from .. import tmpl
+
+    rows = []
+    for i in range(n):
+        t, extra = tmpl.gen_template(rng, max_depth=2, cyclic_ok=False)
+        # declared parameters whose value is the empty text, by default and by assignment
+        t["Parameters"]["Suffix"] = {"Type": "String", "Default": rng.choice(["", "-x"])}
+        t["Parameters"]["Blank"] = {"Type": "String", "Default": "d"}
+        extra = dict(extra, Blank=rng.choice(["", "given"]))
+        t["Resources"]["E"] = {"Type": "Custom::Uses", "Properties": {"A": {"Ref": "Suffix"}, "B": {"Fn::Sub": "n${Suffix}-${Blank}."}, "C": {"Fn::Join": ["", ["n", {"Ref": "Blank"}, {"Ref": "Suffix"}]]},
+                                                                      "D": {"Fn::ImportValue": {"Fn::Sub": "${Blank}${Suffix}"}}}}
+        try:
+            m = tmpl.parse(t)
+        except Exception:
+            continue
+        rows.append((t, extra, m))
+    outs = driver.run([tmpl.model_op(m, extra) for _, extra, m in rows]) if (driver is not None and rows) else []
+    for (t, extra, m), mo in zip(rows, outs):
+        if "driver_error" in mo:
+            raise common.InfraError(str(mo)[:300])
+        if mo.get("outside_domain"):
+            report.count("template-outside-typed-fragment")
+            continue
+        io, _, _ = tmpl.impl_tresolve(m, extra)
+        report.count("template-level")
+        if "resources" not in io:
+            continue
+        want = common.canon(common.dec(mo["resources"])).get("E")
+        got = io["resources"].get("E")
+        if want != got:
+            report.disagreements_checked += 1
+            report.violation("correspondence+oracle", "value-differs:template-level-reference-to-a-declared-parameter", op={"template": {"Parameters": t["Parameters"], "Resources": {"E": t["Resources"]["E"]}}, "extra": extra},
+                             impl=got, model=want, oracle="Template.resolveT (binding of declared parameters, then Spec.resolve; C01_ref_bound)")
+
+
 def run(report, tier, seed, driver, proofs_ok):
     rng = common.rng_for("C01", seed)
     thorough = tier == "thorough"
@@ -156,6 +194,7 @@ def run(report, tier, seed, driver, proofs_ok):
                 impl=i2, model={"value": common.dec(m2["value"])} if "value" in m2 else m2,
                 oracle="Spec.resolve is the property's definition of the CloudFormation value (clauses C01_*); the implementation returns a different value on this well-typed expression",
             )
+    template_level(report, rng, driver, 1500 if thorough else 120)
     report.notes += [
         "typed fragment only: ill-typed expressions (where the code raises or renders a container's repr) are neither proved about nor compared",
         "Fn::GetAtt / Fn::GetAZs values are whatever the code returns (not constrained by the property)",
